@@ -11,7 +11,8 @@ from .C03 import closed_form
 
 RULE = ("positions world-wide inside the TM band (ISG: inside its zones), ellipsoidal / orthometric height each absent / 0 / "
         "random, N value absent / 0 / random, six notations as source and target, ellipsoid GRS80 / ANS, projection UTM / ISG, "
-        "random conversion chains of length 2..8 over {cart, geo(notation), tm, notation(T)}; non-trivial = chain touching at "
+        "random conversion chains of length 2..8 over {cart, geo(notation), tm, notation(T)} from a CoordGeo, CoordCart or user-built "
+        "CoordTM, called positionally, by keyword or with the documented defaults left out; non-trivial = chain touching at "
         "least two coordinate kinds with at least one zero or absent height")
 ASSUMPTIONS = ["one ellipsoid and one projection per chain (changing them mid-chain is a datum change, not a conversion)",
                "'exactly the numbers the functional conversions give': attribute == functional result (==), angles compared "
